@@ -58,6 +58,9 @@ type TSpec struct {
 
 type Line struct {
 	Kind   string  `json:"kind"`             // doc | nonobj | invalid
+	// Lenient: an invalid line of a form the store's JSON decoder is known to accept (recorded
+	// finding "lenient-json"); generated only on request
+	Lenient bool `json:"lenient,omitempty"`
 	Blank  int     `json:"blank,omitempty"`  // blank lines before the action line (HTTP)
 	Action string  `json:"action,omitempty"` // HTTP
 	CRLF   bool    `json:"crlf,omitempty"`   // terminator of the action and of the document line
@@ -405,6 +408,16 @@ func genDoc(t *rapid.T, serial int, o docOpts) Line {
 			}
 		}
 	}
+	if o.forInval && os.Getenv("C10_INCLUDE_KNOWN") == "lenient-json" && rapid.Bool().Draw(t, "lenient") {
+		// not valid JSON by RFC 8259 (encoding/json.Valid says no), of the kinds a lenient decoder lets through
+		bad := rapid.SampledFrom([]string{`01`, `-`, `1.`, `.5`, `+1`, `1e`, `-01`, "\"a\tb\"", "\"a\x01b\"", `"\q"`, `"\u12"`, `"\x41"`}).Draw(t, "lenientform")
+		l.Text = fmt.Sprintf(`{"n":%d,"a":%s}`, serial, bad)
+		if json.Valid([]byte(l.Text)) {
+			panic("harness: lenient form is valid JSON: " + l.Text)
+		}
+		l.Kind, l.Times, l.PadAt, l.PadLen, l.Lenient = "invalid", nil, 0, 0, true
+		return l
+	}
 	if o.forInval {
 		// derive a definitely-invalid text: a proper prefix, or one structural character replaced by
 		// its counterpart ({<->[, }<->], :<->,).  None of these yields "valid object + trailing
@@ -425,6 +438,16 @@ func genDoc(t *rapid.T, serial int, o docOpts) Line {
 		l.Kind, l.Times, l.PadAt, l.PadLen = "invalid", nil, 0, 0
 	}
 	return l
+}
+
+// lenientTag marks failures of requests whose invalid line is of a form recorded as known finding
+func lenientTag(lines []Line) string {
+	for _, l := range lines {
+		if l.Lenient {
+			return ":lenient-json"
+		}
+	}
+	return ""
 }
 
 func genConfig(t *rapid.T, c *Case) {
@@ -1111,7 +1134,7 @@ func runCase(c Case) (res evid.Result, _ error) {
 			ok2xx := w.Code >= 200 && w.Code < 300
 			if reject {
 				if ok2xx {
-					return res, evid.Failf("invalid-accepted", "req %d: body with an invalid JSON document line answered %d %s", ri, w.Code, abbrev(w.Body.Bytes()))
+					return res, evid.Failf("invalid-accepted"+lenientTag(q.Lines), "req %d: body with an invalid JSON document line answered %d %s", ri, w.Code, abbrev(w.Body.Bytes()))
 				}
 				if len(cl.calls) != 0 {
 					return res, evid.Failf("invalid-stored", "req %d: rejected request (%d) still made %d StoreDocuments calls", ri, w.Code, len(cl.calls))
@@ -1183,7 +1206,7 @@ func runCase(c Case) (res evid.Result, _ error) {
 			total, err := ing.ProcessDocuments(context.Background(), time.Unix(0, q.ReqNano).UTC(), next)
 			if reject {
 				if err == nil {
-					return res, evid.Failf("invalid-accepted", "req %d: an invalid JSON document was accepted (total=%d)", ri, total)
+					return res, evid.Failf("invalid-accepted"+lenientTag(q.Lines), "req %d: an invalid JSON document was accepted (total=%d)", ri, total)
 				}
 				if len(cl.calls) != 0 {
 					return res, evid.Failf("invalid-stored", "req %d: rejected request (%v) still made %d StoreDocuments calls", ri, err, len(cl.calls))
